@@ -62,9 +62,10 @@ func callsIncErrors(info *types.Info, n ast.Node) bool {
 
 func c06ErrorsCounted(c *Ctx, r *Report) {
 	const rule = "C06-b/error-counted"
+	opener := batchersPkg + ".openFileToReader" // calleeName answers with the frozen name even when the function was renamed
 	failing := map[string]bool{
-		batchersPkg + ".openFileToReader":                    true,
-		"rare/pkg/followreader.New":                          true,
+		opener:                      true,
+		"rare/pkg/followreader.New": true,
 		"(rare/pkg/followreader.FollowReader).Drain":         true,
 		"(*rare/pkg/followreader.NotifyFollowReader).Drain":  true,
 		"(*rare/pkg/followreader.PollingFollowReader).Drain": true,
